@@ -101,9 +101,9 @@ def plan_jobs(prop, tier, rnd):
     elif prop == "C07":
         slices = [("M", 3), ("B", 3), ("F", 3)]
     elif prop == "C14":
-        slices = [("T", 3), ("Y", 4), ("B", 3), ("F", 3), ("Z", 3), ("C", 3)]
+        slices = [("T", 3), ("Y", 4), ("B", 3), ("F", 3), ("Z", 3), ("C", 3), ("V", 3)]
     elif prop == "C15":
-        slices = [("M", 3), ("Y", 4), ("B", 3), ("F", 3), ("V", 3)]
+        slices = [("M", 3), ("Y", 4), ("B", 3), ("F", 3), ("V", 3), ("Z", 3)]
     else:
         slices = [("Y", 4), ("T", 3), ("B", 3), ("F", 3), ("C", 3), ("Z", 3), ("V", 3)]
     pools, stats = histories_for(slices, rnd)
